@@ -385,7 +385,7 @@ void Json::Private::appendEscapedString(const String& str, String& result)
   result += '"';
   for(const char* start = str, * p = start;;)
   {
-    const char* e = String::findOneOf(p, "\"\\");
+    const char* e = String::findOneOf(p, "\"\\\r\n");
     if(!e)
     {
       result.append(p, strLen - (p - start));
@@ -400,6 +400,12 @@ void Json::Private::appendEscapedString(const String& str, String& result)
       break;
     case '\\':
       result += "\\\\";
+      break;
+    case '\r':
+      result += "\\r";
+      break;
+    case '\n':
+      result += "\\n";
       break;
     }
     p = e + 1;
